@@ -385,6 +385,9 @@ static void ptg_probe_keys(parsec_taskpool_t *tp, const char *file)
     fclose(f);
 }
 
+#include <time.h>
+static double ptg_now(void) { struct timespec ts; clock_gettime(CLOCK_MONOTONIC, &ts); return ts.tv_sec + 1e-9 * ts.tv_nsec; }
+
 int ptg_rt_main(int argc, char **argv, int nglobals, ptg_make_fn mk, ptg_initial_fn ini, ptg_initial_fn inited, ptg_unmake_fn unmk)
 {
     int threads = 1, nt = 16, g[16] = {0}, rc;
@@ -402,6 +405,7 @@ int ptg_rt_main(int argc, char **argv, int nglobals, ptg_make_fn mk, ptg_initial
         } else { fprintf(stderr, "usage: %s [-t threads] [-g g0,g1,..] [-n tiles] [-k instance-file] [-o out] [-- parsec args]\n", argv[0]); return 2; }
     }
     (void)nglobals;
+    double t_start = ptg_now(), t_mpi, t_init, t_run;
     if (getenv("PTG_TIMEOUT_MS")) ptg_timeout_ms = atoi(getenv("PTG_TIMEOUT_MS"));
     if (getenv("PTG_INIT_TIMEOUT_MS")) ptg_init_timeout_ms = atoi(getenv("PTG_INIT_TIMEOUT_MS"));
     if (getenv("PTG_BODY") && !strcmp(getenv("PTG_BODY"), "spin")) ptg_body_spin = 1;
@@ -417,6 +421,7 @@ int ptg_rt_main(int argc, char **argv, int nglobals, ptg_make_fn mk, ptg_initial
 #else
     ptg_world = 1; ptg_rank = 0;
 #endif
+    t_mpi = ptg_now();
     ptg_out = stdout;
     if (outfile) {
         char name[1024];
@@ -429,6 +434,7 @@ int ptg_rt_main(int argc, char **argv, int nglobals, ptg_make_fn mk, ptg_initial
 
     parsec_context_t *ctx = parsec_init(threads, &pargc, &pargv);
     if (!ctx) { fprintf(stderr, "parsec_init failed\n"); return 2; }
+    t_init = ptg_now();
     ptg_dc_t *dc = ptg_dc_new(ptg_rank, ptg_world, nt);
     parsec_taskpool_t *tp = mk(&dc->super, g);
     fprintf(ptg_out, "#ptg rank %d world %d threads %d sched %s startup_iter %zu startup_chunk %zu\n", ptg_rank, ptg_world, threads,
@@ -440,7 +446,9 @@ int ptg_rt_main(int argc, char **argv, int nglobals, ptg_make_fn mk, ptg_initial
     rc = parsec_context_start(ctx);              PARSEC_CHECK_ERROR(rc, "parsec_context_start");
     rc = parsec_context_wait(ctx);               PARSEC_CHECK_ERROR(rc, "parsec_context_wait");
     ptg_done = 1;
+    t_run = ptg_now();
     pthread_join(wd, NULL);
+    fprintf(ptg_out, "#timing mpi_init %.2f parsec_init %.2f run %.2f\n", t_mpi - t_start, t_init - t_mpi, t_run - t_init);
 
     fprintf(ptg_out, "count %d %d => %d\n", ptg_rank, ptg_world, ini(tp));
     if (keyfile) ptg_probe_keys(tp, keyfile);
@@ -452,6 +460,8 @@ int ptg_rt_main(int argc, char **argv, int nglobals, ptg_make_fn mk, ptg_initial
     for (int t = 0; t < dc->nt; t++) if (dc->ptr[t * PTG_TILE] != 1000 + t) fprintf(ptg_out, " %d:%d", t, dc->ptr[t * PTG_TILE]);
     fprintf(ptg_out, "\n");
     fflush(ptg_out);
+    /* PTG_FAST_EXIT: the transcript is complete; skip the teardown of the runtime and of MPI (seconds on a loaded machine) */
+    if (getenv("PTG_FAST_EXIT")) { if (ptg_out != stdout) fclose(ptg_out); _exit(0); }
 
     unmk(tp);
     parsec_taskpool_free(tp);
